@@ -21,7 +21,7 @@ SPEC = {
     "technique": "paired-rendering trace checker over real reader->canonicalize->serialize executions (identity data fixed, non-identity data varied by an independent renderer)",
     "rule": ("cases: base molecules (M2, M3, M4, M5, corpus-like sizes) x one rendering per varied dimension: " + ", ".join(DIMENSIONS) +
              ". distinct_nontrivial = distinct (molecule, dimension) pairs whose rendering text differs from the reference rendering"),
-    "assumptions": ["headers are ASCII; no trailing blanks after 'M  END' or after a continuation dash (outside the variations the property lists)",
+    "assumptions": ["headers are printable text (ASCII or UTF-8 letters/symbols, no control or line-separator characters); no trailing blanks after 'M  END' or after a continuation dash (outside the variations the property lists)",
                     "identity data = element, isotope mass, radical, adjacency; held fixed by construction"],
     "monitors_required": ["c06_pair_compare"],
     "required_obs": {"quick": ["dimension/" + d for d in DIMENSIONS] + ["cov_corpus_base"]},
@@ -30,7 +30,8 @@ SPEC = {
 PLAN = {"quick": {"cases": 1500}, "thorough": {"cases": 20000}}
 
 HEADERS = [["", "", ""], ["benzene - a ring", "  -ISIS-  0927261200", "comment ending with dash-"], ["M  V30 x-", "  prog", "M  END"], ["x" * 79, "y" * 79, "z" * 79],
-           ["M  V30 BEGIN CTAB", "M  V30 COUNTS 9 9 0 0 0", "  0  0  0     0  0            999 V2000"], ["$$$$", "> <x>", "V3000"]]
+           ["M  V30 BEGIN CTAB", "M  V30 COUNTS 9 9 0 0 0", "  0  0  0     0  0            999 V2000"], ["$$$$", "> <x>", "V3000"],
+           ["bond lengths in \u00c5", "  r(C\u2013O) = 1.43 \u00c5, T = 100 K", "\u0105\u0445\u03c5 \u2160\u2164 \u6f22\u5b57 \u00e9\u00b5\u00b0"], ["converted from V3000", "", "format: V2000"]]
 
 
 def pipeline_text(text, via_file=None):
@@ -38,7 +39,7 @@ def pipeline_text(text, via_file=None):
     import tucan.canonicalization as c
     import tucan.serialization as s
     if via_file:
-        with open(via_file, "w", newline="") as f:
+        with open(via_file, "w", newline="", encoding="utf-8") as f:
             f.write(text)
         try:
             g = mr.graph_from_file(via_file)
@@ -114,13 +115,16 @@ def vary(mol: Mol, dim: str, rng):
         st3.counts_extra = True
         st3.blanks = 4
     elif dim == "via_file":
-        pass
+        st3.header = rng.choice(HEADERS)  # incl. non-ASCII UTF-8 text: the file API decodes bytes
     elif dim in ("v2000_format", "v2000_unrelated_lines", "v2000_charge_encoding", "v2000_after_end"):
         fmt = "v2000"
         m.bonds = [(i, j, t if 1 <= t <= 8 else 1) for i, j, t in m.bonds]  # V2000 bond types are 1..8 (non-identity data)
         for a in m.atoms:  # make it representable without touching identity data
             a.x, a.y, a.z = round(a.x, 4), round(a.y, 4), round(a.z, 4)
         st2 = V2Style(encoding="lines", dt_symbols=rng.random() < 0.5)
+        if dim == "v2000_format":
+            st2.header = rng.choice(HEADERS)
+            st2.eol = rng.choice(["\n", "\r\n"])
         if dim == "v2000_unrelated_lines":
             st2.unrelated = 0.7
             st2.atom_lists = rng.choice([0, 2])
